@@ -184,3 +184,13 @@ func Seqs(names []string, maxLen int, emit func([]string)) {
 		rec(nil, l)
 	}
 }
+
+// ManyNames returns n names of distinct small blocks (section lengths 40, 41, ...), for
+// archives that are larger than any internal buffer or batch size.
+func ManyNames(n int) []string {
+	out := make([]string, n)
+	for i := range out {
+		out[i] = fmt.Sprintf("L%d", 40+i)
+	}
+	return out
+}
